@@ -1,7 +1,9 @@
 package rules
 
 import (
+	"fmt"
 	"go/ast"
+	"pigeonverif/internal/variants"
 	"strings"
 )
 
@@ -102,4 +104,49 @@ func paramNames(fd *ast.FuncDecl) []string {
 		}
 	}
 	return out
+}
+
+// parseForwards: Parse builds a fresh parser from its own filename, bytes and options and returns what that parser's
+// parse(g) returns, doing nothing else - read off its normalised paths, so `return newParser(..).parse(g)` and
+// `p := newParser(..); return p.parse(g)` are the same function. The texts of the three arguments are returned.
+func parseForwards(c *Ctx, v *variants.Variant) (ok bool, why string) {
+	pf := v.Func("", "Parse")
+	if pf == nil || pf.Body == nil {
+		return false, "Parse not found"
+	}
+	ps := paramNames(pf)
+	if len(ps) != 3 {
+		return false, "Parse does not take a file name, the input and options"
+	}
+	paths := c.vnorm(v).without("newParser", "parse").normPaths(pf)
+	if len(paths) != 1 {
+		return false, fmt.Sprintf("Parse has %d paths, expected a single unconditional one", len(paths))
+	}
+	p := paths[0]
+	alloc := "newParser(" + ps[0] + "," + ps[1] + "," + ps[2] + "...)"
+	want := alloc + ".parse(g)"
+	if lastReturn(p) != want {
+		return false, "Parse returns " + abbreviate(lastReturn(p)) + ", expected " + want
+	}
+	for _, e := range p {
+		switch e.Kind {
+		case "call":
+			if e.Text != alloc && e.Text != want {
+				return false, "Parse also calls " + abbreviate(e.Text)
+			}
+		case "set":
+			// a local that names the fresh parser is fine; the parameters are not reassigned
+			for _, prm := range ps {
+				if strings.HasPrefix(e.Text, prm+"=") || strings.HasPrefix(e.Text, prm+"[") {
+					return false, "Parse modifies its parameter " + prm
+				}
+			}
+			if !strings.HasPrefix(e.Text, "$") {
+				return false, "Parse stores " + abbreviate(e.Text)
+			}
+		case "+":
+			return false, "Parse depends on " + abbreviate(e.Text)
+		}
+	}
+	return true, ""
 }
